@@ -66,6 +66,18 @@ pub(crate) fn c18_atascii_ascii_identity(s: &mut impl Src) {
     assert!(crate::parsers::atascii::ATARI_TO_UNICODE[c as usize] == c as char);
 }
 
+// C01 (emu_ctrla): the colour tables have 8 entries (assumed as axiom_ctrla_tables in the Verus unit)
+pub(crate) fn c01_ctrla_table_len(_s: &mut impl Src) {
+    assert!(crate::parsers::ctrla::FG.len() == 8 && crate::parsers::ctrla::BG.len() == 8);
+}
+// S2: the assumed spec of vx_char_in_range (= `(lo..=hi).contains(&c)`), for the ranges used in pcboard::conv_ch and any char
+pub(crate) fn std_spec_char_range_contains(s: &mut impl Src) {
+    let v = s.u32();
+    if let Some(c) = char::from_u32(v) {
+        assert!(('a'..='f').contains(&c) == ('a' <= c && c <= 'f'));
+        assert!(('A'..='F').contains(&c) == ('A' <= c && c <= 'F'));
+    }
+}
 include!("/verif/kc/harness_macro.rs");
 kc_harness! {
     c18_attr_byte_roundtrip;
@@ -74,4 +86,6 @@ kc_harness! {
     c18_cp437_ascii_identity;
     c18_atascii_table_injective_128;
     c18_atascii_ascii_identity;
+    c01_ctrla_table_len;
+    std_spec_char_range_contains;
 }
